@@ -85,6 +85,27 @@ def Map.len (m : Map) : Nat :=
   | some _ => 1
   | none => match m.tree with | some t => t.size | none => 0
 
+/-- the comparison loop of `EqualKeys` / `SlowEqual`: the first iterator drives; when the second is
+    exhausted it yields zero values (nil key, zero value) -/
+def eqLoop (vals : Bool) : List KV → List KV → Bool
+  | [], _ => true
+  | (k1, v1) :: r1, [] => (k1 == [] && (!vals || v1 == 0)) && eqLoop vals r1 []
+  | (k1, v1) :: r1, (k2, v2) :: r2 => (k1 == k2 && (!vals || v1 == v2)) && eqLoop vals r1 r2
+
+def Map.treeEntries (m : Map) : List KV := match m.tree with | some t => allRoot t.root | none => []
+
+/-- `Map.EqualKeys` (vals = false) / `Map.SlowEqual` (vals = true): the `switch` of part/map.go -/
+def Map.equalWith (vals : Bool) (m o : Map) : Bool :=
+  if m.len != o.len then false
+  else match m.single, o.single with
+    | some (k1, v1), some (k2, v2) => k1 == k2 && (!vals || v1 == v2)
+    | _, _ =>
+      if m.tree.isNone && o.tree.isNone then true
+      else eqLoop vals m.treeEntries o.treeEntries
+
+def Map.equalKeys (m o : Map) : Bool := m.equalWith false o
+def Map.slowEqual (m o : Map) : Bool := m.equalWith true o
+
 def Map.rep (m : Map) : String :=
   match m.single, m.tree with
   | some _, some _ => "BOTH"
